@@ -28,6 +28,7 @@ import (
 	"unicode/utf8"
 
 	"github.com/zclconf/go-cty/cty"
+	"github.com/zclconf/go-cty/cty/convert"
 	"github.com/zclconf/go-cty/cty/ctystrings"
 	"github.com/zclconf/go-cty/cty/msgpack"
 	"golang.org/x/text/unicode/norm"
@@ -896,6 +897,10 @@ func c16Case(ctx *Ctx, v cty.Value, ct cty.Type, tag string) {
 	p, why := try(func() { b, err = msgpack.Marshal(v, ct) })
 	conforms := len(v.Type().TestConformance(ct)) == 0
 	oracle, oracleOK := c16Oracle(v)
+	if !oracleOK {
+		ctx.Tag("skip:safe-prefix-oracle-not-utf8")
+	}
+	c16d16Numbers(ctx, v)
 	impl := "err"
 	var tree *mpItem
 	switch {
@@ -914,6 +919,7 @@ func c16Case(ctx *Ctx, v cty.Value, ct cty.Type, tag string) {
 			tree = nil
 		} else {
 			impl = "ok " + tree.wire()
+			c16d16IntWidths(ctx, tree) // d16: family and width of every integer item (the wire form drops the width)
 			// self-check of the writer on what the library wrote (the library writes compactly)
 			if back := mpWrite(nil, tree); !bytes.Equal(back, b) {
 				ctx.Probe("mp-rewrite", false, fmt.Sprintf("%x rewritten as %x", b, back))
@@ -924,6 +930,20 @@ func c16Case(ctx *Ctx, v cty.Value, ct cty.Type, tag string) {
 	}
 	if oracleOK && (tree != nil || err != nil || p) {
 		ctx.Add("mp.marshal", impl, w, tw, oracle)
+		if !conforms {
+			// d16: the convert.Convert path of Marshal.  A conversion that builds a set orders its members by the
+			// real hash: with a set type in sight both sides print every array with its members sorted.
+			if strings.Contains(tw, "(E ") || strings.Contains(encTy(v.Type()), "(E ") {
+				simpl := impl
+				if tree != nil {
+					simpl = "ok " + c16d16WireSorted(tree)
+				}
+				ctx.Add("d16.marshalc-sets", simpl, w, tw, oracle)
+			} else {
+				ctx.Add("d16.marshalc", impl, w, tw, oracle)
+			}
+			ctx.Tag("marshal-nonconforming:" + strings.SplitN(impl, " ", 2)[0])
+		}
 	}
 
 	if v.ContainsMarked() {
@@ -931,7 +951,15 @@ func c16Case(ctx *Ctx, v cty.Value, ct cty.Type, tag string) {
 		if p {
 			ctx.Fail(Failure{Site: "marked-rejected", Sig: "panic", What: "Marshal panicked on a marked value", Input: w + " " + tw, GoLit: lit, Outcome: why})
 		} else if err == nil {
-			ctx.Fail(Failure{Site: "marked-rejected", Sig: "accepted", What: "Marshal accepted a marked value", Input: w + " " + tw, GoLit: lit, Outcome: fmt.Sprintf("%x", b)})
+			sig := "accepted"
+			if !conforms {
+				// root cause: the type does not conform, Marshal converts first, and the conversion DROPS the part
+				// of the value that carries the mark (an attribute the target object type does not have)
+				if cv, cerr := convert.Convert(v, ct); cerr == nil && !cv.ContainsMarked() {
+					sig = "accepted:mark-only-in-part-dropped-by-conversion-to-constraint"
+				}
+			}
+			ctx.Fail(Failure{Site: "marked-rejected", Sig: sig, What: "Marshal accepted a marked value", Input: w + " " + tw, GoLit: lit, Outcome: fmt.Sprintf("%x", b)})
 		}
 		return
 	}
@@ -969,7 +997,11 @@ func c16Case(ctx *Ctx, v cty.Value, ct cty.Type, tag string) {
 	// the hypotheses of C16.roundtrip_covers must imply that the real round trip is fine
 	realOK := !dp && derr == nil && c16Approx(dec, v) == nil
 	if oracleOK {
-		ctx.Add("mp.fitsimp", encBool(realOK), w, tw, oracle, encBool(realOK))
+		fop := "mp.fitsimp" // the driver answers `unmodelled` (not compared) when the hypotheses do not hold
+		if strings.Contains(encTy(v.Type()), "(E ") {
+			fop = "mp.fitsimp-sets"
+		}
+		ctx.Add(fop, encBool(realOK), w, tw, oracle, encBool(realOK))
 	}
 	if dp || derr != nil {
 		out, sig := dwhy, "panic"
@@ -981,10 +1013,11 @@ func c16Case(ctx *Ctx, v cty.Value, ct cty.Type, tag string) {
 			strings.Contains(out, "elements must have the same type"):
 			// the decoder met members of different types (a panic of ListVal/SetVal/MapVal before /repo e63bbcc, an error since)
 			sig = "inconsistent-element-types:" + c16TypeSig(v, ct)
-		case c16InexactText(v) != "" && (strings.Contains(out, "bound") || strings.Contains(out, "invalid refinements")):
+		case c16d16InexactBound(v) != "" && (strings.Contains(out, "bound") || strings.Contains(out, "invalid refinements")):
 			// the decoded bounds are not the encoded ones, and no longer consistent with each other
-			// (a panic of the refinement builder before /repo 28caeac, an error since)
-			sig = "inconsistent-bounds:" + c16InexactText(v)
+			// (a panic of the refinement builder before /repo 28caeac, an error since); d16: the root cause must
+			// sit in a BOUND of an unknown number with TWO bounds, not in any number anywhere in the value
+			sig = "inconsistent-bounds:" + c16d16InexactBound(v)
 		case strings.Contains(out, "oversize unknown value refinement") && c16MaxRefinementText(v) > 900:
 			sig = "oversize-refinement-from-long-bound-text"
 		}
@@ -1041,8 +1074,28 @@ func c16Decode(ctx *Ctx, it *mpItem, ct cty.Type, tag string) {
 		return
 	}
 	ctx.Probe("mp-writer-readable", true, "")
-	if bad := mpHasBad(back); bad != "" || !c16StringsNormal(back) {
+	if bad := mpHasBad(back); bad != "" {
 		ctx.Tag("skip:decode-outside-item-model")
+		return
+	}
+	if !c16StringsNormal(back) {
+		// d16: strings that are not in NFC — the real normalisation travels as an oracle column
+		table, _, ok := c16d16NormTable(back)
+		if !ok {
+			ctx.Tag("skip:decode-non-nfc-bin")
+			return
+		}
+		ctx.Tag("decode-nfc:" + tag)
+		var dec cty.Value
+		var derr error
+		dp, _ := try(func() { dec, derr = msgpack.Unmarshal(b, ct) })
+		dimpl := "err"
+		if dp {
+			dimpl = "panic"
+		} else if derr == nil {
+			dimpl = "ok " + canonVal(dec)
+		}
+		ctx.Add("d16.unmarshaln", dimpl, back.wire(), encTy(ct), table)
 		return
 	}
 	ctx.Tag("decode:" + tag)
@@ -1396,6 +1449,9 @@ func runC16(ctx *Ctx) {
 		c16Parse(ctx, s)
 	}
 	nHand := c16HandItems(ctx)
+	nHand += c16d16BB6(ctx)
+	c16d16NFCItems(ctx)
+	c16d16NonConforming(ctx)
 	// 1b. regression witnesses of the repaired findings with root cause whole-beyond-int64-shortest-text-inexact
 	// (they must pass), and the witnesses of the recorded ones that need two bounds
 	for _, w := range c16TwoBoundWitnesses() {
